@@ -309,6 +309,17 @@ Qed.
 Lemma len_eq : forall a b : bytes, len a =? len b = true -> length a = length b.
 Proof. intros a b H. apply N.eqb_eq in H. unfold len in H. lia. Qed.
 
+Lemma fileof_dset_same : forall a k f e' s, fileof a k f (dset a k (Some e') s) = fget f e'.
+Proof. intros. unfold fileof. destruct a; cbn [dget dset ca up]; rewrite upd_same; reflexivity. Qed.
+
+Lemma apply_trunc : forall s a k f n e c0, dget a k s = Some e -> fget f e = Some c0 ->
+  apply_call s (CTrunc a k f n) = dset a k (Some (fset f (Some (resize c0 n)) e)) s.
+Proof. intros s a k f n e c0 G F. unfold apply_call. cbn [apply_opt]. rewrite G, F. reflexivity. Qed.
+
+Lemma apply_create : forall s a k f e, dget a k s = Some e ->
+  apply_call s (CCreate a k f) = dset a k (Some (fset f (Some []) e)) s.
+Proof. intros s a k f e G. unfold apply_call. cbn [apply_opt]. rewrite G. reflexivity. Qed.
+
 Lemma meta_ok : forall E d plf, block_ok E (meta_b E d plf).
 Proof.
   intros E d plf s Is. unfold meta_b.
@@ -328,19 +339,19 @@ Proof.
     + cbn. split; [exact I |].
       rewrite fileof_ca in FD, FM. destruct (ca s d) as [e |] eqn:C; [| discriminate]. cbn in FD, FM.
       apply (W (resize c0 (len b))).
-      * unfold apply_call. cbn. rewrite C. cbn. rewrite FM. cbn. rewrite upd_same. cbn. exact FD.
-      * unfold apply_call. cbn. rewrite C. cbn. rewrite FM. cbn. rewrite upd_same. cbn. reflexivity.
+      * rewrite (apply_trunc s ACa d FMeta (len b) e c0 C FM), fileof_dset_same. exact FD.
+      * rewrite (apply_trunc s ACa d FMeta (len b) e c0 C FM), fileof_dset_same. reflexivity.
       * rewrite resize_length. unfold len. lia.
   - rewrite trace_safe_app. split; [apply asafe_trace, mkdirs_asafe |].
     set (s1 := exec (mkdirs E ACa d s) s).
     assert (C1 : forall y, ca s1 y = ca s y) by (apply mkdirs_ca_exists; exact Hdir).
     assert (FD1 : fileof ACa d FData s1 = Some c) by (rewrite fileof_ca, C1, <- fileof_ca; exact FD).
-    cbn [app]. cbn. split; [exists c; exact FD1 |].
+    clearbody s1. cbn [app]. cbn. split; [exists c; exact FD1 |].
     unfold wr0. destruct b eqn:Eb; [exact I |]. rewrite <- Eb.
     cbn. split; [| exact I]. split; [reflexivity |].
     rewrite fileof_ca in FD1. destruct (ca s1 d) as [e1 |] eqn:Ce; [| discriminate]. cbn in FD1.
-    exists c, pl, []. unfold apply_call. cbn. rewrite Ce. cbn. rewrite upd_same. cbn.
-    repeat split; auto. rewrite Eb. cbn. lia.
+    exists c, pl, []. rewrite (apply_create s1 ACa d FMeta e1 Ce), !fileof_dset_same.
+    repeat split; auto. cbn. lia.
 Qed.
 
 (* ---------------------------------------------------------------- operations, histories, epochs *)
